@@ -457,7 +457,7 @@ def c_boundary(case, ctx):
 CLAUSES = [
     Clause("history", c_history, s_history, quick=1500, thorough=40000, nt_floor=0.5,
            rule="apply histories on one instance; non-trivial: >=3 applies with a re-used / perturbed input, or a mixed-domain apply"),
-    Clause("batch", c_batch, s_batch, quick=2500, thorough=80000, nt_floor=0.3,
+    Clause("batch", c_batch, s_batch, quick=2500, thorough=80000, nt_floor=0.2,
            rule="apply(x, batch_size=k) == apply(x); non-trivial: k does not divide n or exceeds it"),
     Clause("boundary", c_boundary, s_boundary, quick=800, thorough=25000, nt_floor=0.5,
            rule="piecewise affine: points on / within a few ulps of the domain boundary mixed with interior points; outcome "
